@@ -12,9 +12,11 @@ Record snap := mkSnap {
   sn_infos : list Z; sn_windex : list (Z * Z); sn_next_role : Z;
   sn_props : list (Z * Z);                    (* proposal id, result enum *)
   sn_active : list Z; sn_enact : list Z; sn_next_prop : Z;
-  sn_ms : ms_snap }.
+  sn_ms : ms_snap;
+  sn_id_records : list (Z * Z); sn_id_index : list (Z * Z); sn_id_last : Z;       (* identity registrar *)
+  sn_d_treasury : Z; sn_d_snap : Z; sn_d_votes : list (Z * Z); sn_d_proposer : Z (* distributor; proposer -1: none *) }.
 
-Inductive rstatus := RImported | RExportPanic (module : string) | RImportPanic.
+Inductive rstatus := RImported | RExportPanic (module : string) | RImportPanic (class : string).
 
 Record c12_case := mkCase {
   cs_status : rstatus;
@@ -59,13 +61,13 @@ Definition class_matches (c : c12_case) (pc : string * string) : bool :=
   let (store, name) := pc in
   if sdk_store store then true else
   match status_of store name with
-  | SLost => has_diff "lost" store name (cs_diffs c)                   (* predicted lost => observed lost *)
   | SCovered =>
       (negb (has_diff "lost" store name (cs_diffs c)) && negb (has_diff "added" store name (cs_diffs c))
        && (if (String.eqb store "customgov" && String.eqb name "RolePermissionRegistry")%bool
-           then Bool.eqb (has_diff "changed" store name (cs_diffs c)) (has_blacklist (cs_before c))
+           then Bool.eqb (has_diff "changed" store name (cs_diffs c)) (has_blacklist (cs_before c) && negb gov_restores_blacklists)
            else negb (has_diff "changed" store name (cs_diffs c))))%bool
   | SDerived => negb (has_diff "changed" store name (cs_diffs c))       (* an index may lose dangling / gain missing entries *)
+  | SLost => has_diff "lost" store name (cs_diffs c)                   (* predicted lost => observed lost *)
   | STransient | SUnused | SUnknown => false                            (* must never be populated / must be in the table *)
   end.
 (* every observed difference concerns a populated class or an index class of a sekai store *)
@@ -78,15 +80,29 @@ Definition diff_explained (c : c12_case) (d : string * string * string) : bool :
    | SCovered => (String.eqb (fst (fst d)) "changed" && String.eqb store "customgov" && String.eqb name "RolePermissionRegistry")%bool
    | _ => false end)%bool.
 
+Definition zmaxl (l : list Z) : Z := fold_right Z.max 0 l.
 Definition snap_matches (b a : snap) : bool :=
-  (roles_eqb (reimport_roles (roles_of_snap b)) (roles_of_snap a)
-   (* proposals are all restored, both queues are empty, the id counter survives *)
-   && zpairs_eqb (sn_props b) (sn_props a) && zlist_eqb (sn_active a) [] && zlist_eqb (sn_enact a) []
+  (roles_eqb (reimport_roles gov_restores_blacklists (roles_of_snap b)) (roles_of_snap a)
+   (* proposals are all restored, the id counter survives; the queues are empty, or rebuilt when InitGenesis does that *)
+   && zpairs_eqb (sn_props b) (sn_props a)
+   && zlist_eqb (sn_active a) (if gov_rebuilds_queues then sn_active b else [])
+   && zlist_eqb (sn_enact a) (if gov_rebuilds_queues then sn_enact b else [])
    && (sn_next_prop b =? sn_next_prop a)
-   (* multistaking: pools and undelegations restored, counters and the two side tables gone *)
+   (* multistaking: pools and undelegations restored; counters zero, or re-derived from the highest imported id;
+      the two side tables gone *)
    && zlist_eqb (ms_pools (sn_ms b)) (ms_pools (sn_ms a)) && zlist_eqb (ms_undels (sn_ms b)) (ms_undels (sn_ms a))
-   && (ms_last_pool (sn_ms a) =? 0) && (ms_last_undel (sn_ms a) =? 0)
-   && (ms_delegators (sn_ms a) =? 0) && (ms_compound (sn_ms a) =? 0))%bool.
+   && (ms_last_pool (sn_ms a) =? (if ms_restores_counters then zmaxl (ms_pools (sn_ms b)) else 0))
+   && (ms_last_undel (sn_ms a) =? (if ms_restores_counters then zmaxl (ms_undels (sn_ms b)) else 0))
+   && (ms_delegators (sn_ms a) =? 0) && (ms_compound (sn_ms a) =? 0)
+   (* identity registrar: records, by-address index (as a set) and counter = model of the re-import *)
+   && (let m := reimport_id (mkId (sn_id_records b) (sn_id_index b) (sn_id_last b)) in
+       zpairs_eqb (id_records m) (sn_id_records a) && zpairs_seteq (id_index m) (sn_id_index a) && (id_last m =? sn_id_last a))
+   (* distributor: treasury, snap period, votes (as a set), previous proposer = model of the re-import *)
+   && match reimport_distr (mkDistr (sn_d_treasury b) (sn_d_snap b) (sn_d_votes b)
+                                    (if sn_d_proposer b <? 0 then None else Some (sn_d_proposer b)) (0, 0) (0, 0)) with
+      | Ok m => (d_treasury m =? sn_d_treasury a) && (d_snap_period m =? sn_d_snap a) && zpairs_seteq (d_votes m) (sn_d_votes a)
+                && match d_proposer m with Some p => p =? sn_d_proposer a | None => false end
+      | _ => false end)%bool.
 
 Definition registry_populated (c : c12_case) : bool :=
   existsb (fun pc => (String.eqb (fst pc) "customgov" && String.eqb (snd pc) "DataRegistryPrefix")%bool) (cs_populated c).
@@ -99,9 +115,11 @@ Definition case_matches (c : c12_case) : bool :=
        && Bool.eqb (cs_version_panic c) upgrade_refuses_own_export   (* model of x/upgrade's version check *)
        && negb (gov_export_panics (registry_populated c))
        (* the second export differs in gov exactly when role blacklists were dropped *)
-       && Bool.eqb (str_in "customgov" (cs_export2 c)) (has_blacklist (cs_before c)))%bool
+       && Bool.eqb (str_in "customgov" (cs_export2 c)) (has_blacklist (cs_before c) && negb gov_restores_blacklists))%bool
   | RExportPanic m => (String.eqb m "customgov" && gov_export_panics (registry_populated c))%bool   (* AllDataRegistry writes into a nil map *)
-  | RImportPanic => false
+  (* SetIdentityRecord panics on a value two owners share under a key declared unique after the fact:
+     not modelled; the case is left to the spec checker *)
+  | RImportPanic cl => String.eqb cl "identity-unique-key"
   end.
 
 Fixpoint mismatches_from (n : nat) (cs : list c12_case) : list nat :=
@@ -118,7 +136,7 @@ Definition diff_clause (d : string * string * string) : string :=
 Definition case_clauses (c : c12_case) : list string :=
   match cs_status c with
   | RExportPanic m => [("export-panic:" ++ m)%string]
-  | RImportPanic => (if cs_version_panic c then ["import-panic:upgrade/version"%string] else []) ++ ["import-panic:other"%string]
+  | RImportPanic cl => (if cs_version_panic c then ["import-panic:upgrade/version"%string] else []) ++ [("import-panic:" ++ cl)%string]
   | RImported =>
       (if cs_version_panic c then ["import-panic:upgrade/version"%string] else [])
       ++ map diff_clause (cs_diffs c)
